@@ -37,7 +37,7 @@ type c02Case struct {
 }
 
 var c02Profiles = []gen.Profile{gen.PInt, gen.PInt, gen.PFloat, gen.PBool, gen.PLowStr, gen.PLowStr, gen.PHighStr, gen.PNumText,
-	gen.PMixNumStr, gen.PMixNumBool, gen.PIntBig, gen.PWidth6Str, gen.PMixIntFloat, gen.PNullOnly, gen.PMixNumNumText, gen.PMixNumNumText, gen.PIntThenFloat, gen.PFloatThenInt}
+	gen.PMixNumStr, gen.PMixNumBool, gen.PIntBig, gen.PWidth6Str, gen.PMixIntFloat, gen.PNullOnly, gen.PMixNumNumText, gen.PMixNumNumText, gen.PIntThenFloat, gen.PFloatThenInt, gen.PUInt, gen.PUInt}
 
 func genC02(t *rapid.T) *c02Case {
 	ds := gen.GenDataset(t, gen.DatasetOpts{MaxEvents: pt.Scale(40, 150), MaxCols: 5, Profiles: c02Profiles, NullPct: 3})
